@@ -21,6 +21,7 @@ Definition run (fam : bytes) (c : value) : value :=
   else if beq fam (B "bauthm") then run_bauthm c
   else if beq fam (B "lauth") then run_lauth c
   else if beq fam (B "slot") then run_slot c
+  else if beq fam (B "slotm") then run_slotm c
   else if beq fam (B "fs") then run_fs c
   else if beq fam (B "fsm") then run_fsm c
   else if beq fam (B "proxy") then run_proxy c
@@ -46,7 +47,7 @@ Definition chk (prop fam : bytes) (c o : value) : bool :=
                                         else if beq fam (B "proxy") then chk_C11 c o else true)
   else if beq prop (B "C11") then chk_C11 c o
   else if beq prop (B "C20") then (if beq fam (B "tls") then chk_C20 c o else true)
-  else if beq prop (B "C15") then (if beq fam (B "slot") then chk_C15 c o else true)
+  else if beq prop (B "C15") then (if beq fam (B "slot") then chk_C15 c o else if beq fam (B "slotm") then chk_C15m c o else true)
   else if beq prop (B "C17") then chk_C17 fam c o
   else if beq prop (B "C14") then (if beq fam (B "copier") then chk_C14 c o else true)
   else if beq prop (B "C18") then (if beq fam (B "sock") then chk_C18 c o else true)
